@@ -284,6 +284,18 @@ theorem schmidt_trace_det (ψ : Nat → R) :
   · simp [sumRange, List.range_succ, det2, conj_eq_star, star_mul']; ring
 
 
+omit [StarRing R] in
+/-- **product states**: for `ψ = a ⊗ b` (`ψ[2i+j] = a_i b_j`) the amplitude determinant vanishes … -/
+theorem det2_product (a b : Nat → R) : det2 (fun k => a (k / 2) * b (k % 2)) = 0 := by
+  simp [det2]; ring
+
+/-- … hence the matrix handed to `eigvalsh` by `get_concurrence_2qubit` for the pure product state `aaᴴ ⊗ bbᴴ` is the zero matrix
+(`R = ρρ̃` has `tr R = 0`, `R² = 0`): its spectrum is `(0,0,0,0)`, the read-out (`woottersReadout_zero`) is concurrence 0, and
+`eof_zero`, `gme_eq_zero_iff` give EOF = GME = 0 — "finite and zero" on pure product states, modulo the `eigvalsh` contract. -/
+theorem concurrenceArg_product (a b : Nat → R) (i j : Fin 4) :
+    concurrenceArg (pureRho fun k => a (k / 2) * b (k % 2)) (pureRho fun k => a (k / 2) * b (k % 2)) i j = 0 := by
+  rw [concurrenceArg_pure, det2_product]; simp
+
 /-! ## Bell-diagonal states -/
 
 /-- a Bell-diagonal state with self-conjugate (real) weights is its own spin flip -/
